@@ -192,7 +192,7 @@ CLAIMED = {
              "source without layers, move leaves the source null; (R2) every store of a child into inner_pdu_ is followed "
              "on all paths by parent_pdu(this), release clears the parent; (R3) clone() of every instantiable concrete layer "
              "class returns new K(*this); (R4) user-declared copy members forward to the PDU base. Two genuine defects "
-             "found this way were repaired with fix: commits (see known_findings.json 'fixed'). (R5) outside constructors an owning pointer member is overwritten only after the old target was deleted, saved or handed over on that path; (R6) a layer pointer obtained through the non-owning inner_pdu() getter is never deleted on a path on which the parent has not released it (expected count 0; fixture controls).",
+             "found this way were repaired with fix: commits (see known_findings.json 'fixed'). (R5) outside constructors an owning pointer member is overwritten only after the old target was deleted, saved or handed over on that path; (R6) a layer pointer obtained through the non-owning inner_pdu() getter is never deleted on a path on which the parent has not released it (expected count 0; fixture controls). (R7) a member container whose elements the destructor deletes (found from the destructor: TCPStream's fragment maps) is assigned / cleared outside constructors only after its elements were freed on that path.",
         note="Deep equality of field values of copies and 'freed exactly once' over arbitrary programs are not decided; "
              "TCPStream's fragment maps (legacy API) are outside R1's structural owner detection.",
     ),
